@@ -1,0 +1,393 @@
+//go:build verif
+
+// Contracts for the fvc verification-condition generator in /verif (comment-only file; it adds no
+// code to the package and is only seen with -tags verif).
+//
+// C03: documented pattern syntax matches what it says and captures what was put in.
+// PROOF PART: the route-pattern parser (path.go) establishes the well-formedness of the parsed pattern that the
+// matcher contracts (C02 block of zz_contracts_verif.go) assume; registration and RoutePatternMatch normalise
+// the pattern the same way. The completeness statement itself (every filling of a delimited pattern matches
+// and is captured) is decided by the bounded stand-in /verif/bounded/c03_patterns_test.go.
+//
+// Obligations that FAIL on the unchanged tree for a genuine reason (replay tests in /verif/replay/known/c03_*):
+//   (*routeParser).parseRoute/pre:(*routeParser).analyseConstantPart:has-literal-byte      pattern "/:a\" (dangling escape)
+//   (*routeParser).analyseParameterPart/safety:bounds:strslice#6, #10, #11                 "/:a>b<c", "/:a<x)y(>", "/:a<regex)y(>"
+//   RoutePatternMatch/atcall:(*routeParser).getMatch:path-trimmed-when-pattern-trimmed     RoutePatternMatch("/foo/", "/foo")
+//   RoutePatternMatch/post:parser-no-is-final                                              RoutePatternMatch(p, p), p = "/user/:id<int>"
+// UNDECIDED (neither proved nor refuted, see (*App).register): register/inv:loop2.init:method-table-indexed,
+//   register/inv:loop2.preserve:stack-entries-given, register/inv:loop3.preserve:stack-entries-given.
+
+package fiber
+
+//@ props C03
+
+// ---------------------------------------------------------------------------------------------
+// Scanning helpers: "unescaped" means "not directly preceded by a backslash"
+// ---------------------------------------------------------------------------------------------
+
+//@ macro unescAt(s, i) = (i == 0 || s[i-1] != '\\')
+//@ macro charAt(s, i, c) = (s[i] == c && unescAt(s, i))
+//@ macro inSet(c, set) = exists(js, 0, len(set), set[js] == c)
+//@ macro setAt(s, i, set) = inSet(s[i], set) && unescAt(s, i)
+
+// Lemma: the substring from 0 to the length is the string itself.
+//@ smt (assert (forall ((s Str)) (! (= (sub s 0 (len s)) s) :pattern ((sub s 0 (len s))))))
+// Lemma: a substring of a substring is a substring of the whole string.
+//@ smt (assert (forall ((s Str) (a Int) (b Int) (c Int) (d Int)) (! (=> (and (<= 0 a) (<= a b) (<= b (len s)) (<= 0 c) (<= c d) (<= d (- b a))) (= (sub (sub s a b) c d) (sub s (+ a c) (+ a d)))) :pattern ((sub (sub s a b) c d)))))
+
+// First unescaped occurrence of char, or -1.
+//@ func findNextNonEscapedCharPosition
+//@   pure
+//@   loop 1
+//@     invariant none-so-far: 0 <= i && forall(k, 0, i, !charAt(search, k, char))
+//@     decreases len(search) - i
+//@   ensures in-range: -1 <= result && result < len(search)
+//@   ensures first-unescaped: result >= 0 ==> charAt(search, result, char) && forall(k, 0, result, !charAt(search, k, char))
+//@   ensures none: result == -1 ==> forall(k, 0, len(search), !charAt(search, k, char))
+
+// First occurrence of any byte of the set, or -1.
+//@ func findNextCharsetPosition
+//@   pure
+//@   loop 1
+//@     invariant min-so-far: -1 <= nextPosition && nextPosition < len(search) && rangeindex + 1 <= len(charset) &&
+//@ ..     (nextPosition >= 0 ==> inSet(search[nextPosition], charset)) &&
+//@ ..     forall(j, 0, rangeindex + 1, forall(k, 0, ite(nextPosition == -1, len(search), nextPosition), search[k] != charset[j]))
+//@   ensures in-range: -1 <= result && result < len(search)
+//@   ensures first-of-set: result >= 0 ==> inSet(search[result], charset) && forall(k, 0, result, !inSet(search[k], charset))
+//@   ensures none: result == -1 ==> forall(k, 0, len(search), !inSet(search[k], charset))
+
+// First unescaped occurrence of any byte of the set, or -1.
+//@ func findNextNonEscapedCharsetPosition
+//@   pure
+//@   loop 1
+//@     invariant candidate: -1 <= pos && pos < len(search) && (pos >= 0 ==> inSet(search[pos], charset)) &&
+//@ ..     forall(k, 0, ite(pos == -1, len(search), pos), !setAt(search, k, charset))
+//@     decreases len(search) - pos
+//@   ensures in-range: -1 <= result && result < len(search)
+//@   ensures first-unescaped-of-set: result >= 0 ==> setAt(search, result, charset) && forall(k, 0, result, !setAt(search, k, charset))
+//@   ensures none: result == -1 ==> forall(k, 0, len(search), !setAt(search, k, charset))
+
+// ---------------------------------------------------------------------------------------------
+// Removing escape characters
+// ---------------------------------------------------------------------------------------------
+
+//@ fn unescaped(s string) string
+// (bound variables of macros have their own names: a macro is expanded textually, also under other quantifiers)
+//@ macro noEscape(s) = forall(ne, 0, len(s), s[ne] != '\\')
+
+// RemoveEscapeChar drops every backslash and keeps the other bytes in order.
+//@ func RemoveEscapeChar
+//@   pure
+//@   defines result == unescaped(word)
+//@   loop 1
+//@     invariant compacted: 0 <= dst && dst <= src && src <= len(b) && len(b) == len(word) &&
+//@ ..     forall(k, 0, dst, b[k] != '\\') && forall(k, src, len(b), b[k] == word[k]) &&
+//@ ..     (forall(k, 0, src, word[k] != '\\') ==> dst == src && forall(k, 0, src, b[k] == word[k])) &&
+//@ ..     (exists(k, 0, src, word[k] != '\\') ==> dst >= 1) &&
+//@ ..     (src > 0 && word[0] != '\\' ==> b[0] == word[0]) &&
+//@ ..     (src > 0 && word[src-1] != '\\' ==> dst > 0 && b[dst-1] == word[src-1])
+//@     decreases len(b) - src
+//@   ensures no-longer: len(result) <= len(word)
+//@   ensures no-escape-left: noEscape(result)
+//@   ensures identity-without-escape: noEscape(word) ==> result == word
+//@   ensures keeps-a-literal-byte: exists(k, 0, len(word), word[k] != '\\') ==> len(result) >= 1
+//@   ensures first-byte-kept: len(word) > 0 && word[0] != '\\' ==> len(result) > 0 && result[0] == word[0]
+//@   ensures last-byte-kept: len(word) > 0 && word[len(word)-1] != '\\' ==> len(result) > 0 && result[len(result)-1] == word[len(word)-1]
+
+// splitNonEscaped cuts s at every unescaped separator: at least one part, no part contains an unescaped separator.
+// (frame: only elements of string slices are written - the result's own array; the engine cannot carry "rows allocated at
+// entry are unchanged" across a loop that appends, hence the whole element heap is listed)
+//@ func splitNonEscaped
+//@   modifies heap(E_string)
+//@   loop 1
+//@     invariant rest: len(s) <= len(old(s)) && -1 <= i && i < len(s) &&
+//@ ..     (i >= 0 ==> charAt(s, i, sep) && forall(k, 0, i, !charAt(s, k, sep))) &&
+//@ ..     (i == -1 ==> forall(k, 0, len(s), !charAt(s, k, sep)))
+//@     invariant own-array: result == nil || !wasAllocated(arr(result))
+//@     invariant parts-so-far: forall(j, 0, len(result), forall(k, 0, len(result[j]), !charAt(result[j], k, sep)))
+//@     decreases len(s)
+//@   ensures at-least-one-part: len(result) >= 1
+//@   ensures parts-have-no-separator: forall(j, 0, len(result), forall(k, 0, len(result[j]), !charAt(result[j], k, sep)))
+
+// ---------------------------------------------------------------------------------------------
+// Where the next parameter starts
+// ---------------------------------------------------------------------------------------------
+
+// The tables of special characters are package variables that nothing writes after initialisation.
+//@ macro startCharsTable() = len(parameterStartChars) == 3 && parameterStartChars[0] == '*' && parameterStartChars[1] == '+' && parameterStartChars[2] == ':'
+//@ macro isStartChar(c) = (c == '*' || c == '+' || c == ':')
+//@ macro startAt(s, i) = (isStartChar(s[i]) && unescAt(s, i))
+
+// findNextParamPosition: the first unescaped '*', '+' or ':' - or, when that one is not '*' and is directly
+// followed by another of the three, the position after it ("::name": the first colon is literal text).
+//@ func findNextParamPosition
+//@   pure
+//@   assumes start-chars-table: startCharsTable()
+//@   loop 1
+//@     invariant at-first-start-char: 0 <= nextParamPosition && nextParamPosition < len(pattern) && startAt(pattern, nextParamPosition) &&
+//@ ..     forall(k, 0, nextParamPosition, !startAt(pattern, k)) && pattern[nextParamPosition] != '*'
+//@     decreases len(pattern) - nextParamPosition
+//@   ensures in-range: -1 <= result && result < len(pattern)
+//@   ensures none-iff-no-start-char: result == -1 <==> forall(k, 0, len(pattern), !startAt(pattern, k))
+//@   ensures at-unescaped-start-char: result >= 0 ==> startAt(pattern, result)
+//@   ensures only-a-doubled-start-char-before: result >= 0 ==> forall(k, 0, result, startAt(pattern, k) ==> k == result - 1 && pattern[k] != '*')
+//@   ensures first-unless-doubled: result >= 0 && forall(k, 0, result, !startAt(pattern, k)) ==>
+//@ ..     pattern[result] == '*' || result + 1 == len(pattern) || !isStartChar(pattern[result+1])
+
+// ---------------------------------------------------------------------------------------------
+// Segments
+// ---------------------------------------------------------------------------------------------
+
+// A literal segment: everything up to the next parameter (or the rest of the pattern), escape characters removed.
+// A part that consists of escape characters only would give an empty literal (see parseRoute: no-dangling-escape).
+//@ macro constEnd(pattern, npp) = ite(npp == -1, len(pattern), npp)
+//@ func (*routeParser).analyseConstantPart
+//@   pure
+//@   requires pattern-left: len(pattern) > 0
+//@   requires position-valid: nextParamPosition == -1 || (0 < nextParamPosition && nextParamPosition <= len(pattern))
+//@   requires has-literal-byte: exists(k, 0, constEnd(pattern, nextParamPosition), pattern[k] != '\\')
+//@   ensures consumed: result0 == constEnd(pattern, nextParamPosition) && result0 >= 1
+//@   ensures literal-segment: result1 != nil && !result1.IsParam && result1.Length == len(result1.Const)
+//@   ensures literal-text: result1.Const == unescaped(pattern[:result0])
+//@   ensures literal-not-empty: result1.Length >= 1
+//@   ensures flags-clear: !result1.IsLast && !result1.HasOptionalSlash && !result1.IsOptional && !result1.IsGreedy &&
+//@ ..     result1.ComparePart == "" && result1.PartCount == 0 && result1.ParamName == ""
+//@   ensures new-object: !old(allocated(result1))
+
+// GetTrimmedParam strips the leading ':' and a trailing '?' of a named parameter; anything else is returned as it is.
+//@ func GetTrimmedParam
+//@   pure
+//@   ensures not-a-named-parameter: len(param) == 0 || param[0] != ':' ==> result == param
+//@   ensures named: len(param) > 0 && param[0] == ':' ==> result == param[1:len(param) - ite(param[len(param)-1] == '?', 1, 0)]
+
+//@ func getParamConstraintType
+//@   pure
+// (the constraint-aware end-of-name search belongs to the constraint sub-syntax, property C02: only its range matters here)
+//@ func findNextCharsetPositionConstraint
+//@   pure
+//@   loop 1
+//@     invariant in-range: -1 <= nextPosition && nextPosition < len(search)
+//@   ensures in-range: -1 <= result && result < len(search)
+
+//@ macro endCharsTable() = len(parameterEndChars) == 6 && parameterEndChars[0] == '?' && parameterEndChars[1] == ':' && parameterEndChars[2] == '\\' &&
+//@ ..   parameterEndChars[3] == '/' && parameterEndChars[4] == '-' && parameterEndChars[5] == '.'
+//@ macro delimiterCharsTable() = len(parameterDelimiterChars) == 5 && parameterDelimiterChars[0] == ':' && parameterDelimiterChars[1] == '\\' &&
+//@ ..   parameterDelimiterChars[2] == '/' && parameterDelimiterChars[3] == '-' && parameterDelimiterChars[4] == '.'
+//@ macro isEndChar(c) = (c == '?' || c == ':' || c == '\\' || c == '/' || c == '-' || c == '.')
+//@ macro hasBrackets(s) = (exists(kb, 0, len(s), s[kb] == '<') && exists(kb, 0, len(s), s[kb] == '>'))
+// position k of the pattern (k >= 1) holds an end character that is not escaped; the byte after the start character counts as unescaped
+//@ macro endAt(s, k) = (isEndChar(s[k]) && (k == 1 || s[k-1] != '\\'))
+
+// A parameter segment. '*' and '+' are one byte long and greedy, '*' is optional; a named parameter extends to the
+// first unescaped '?', ':', '\', '/', '-' or '.' (a '?' belongs to it and makes it optional) or to the end of the pattern.
+// nosafety bounds: the constraint sub-syntax ("<...>", property C02) is sliced with positions whose order the function
+// does not check (":a>b<c" and ":a<x)y(>" panic at registration); the extent of the segment itself is the
+// postcondition `consumed`.
+//@ func (*routeParser).analyseParameterPart
+//@   assumes end-chars-table: endCharsTable() && delimiterCharsTable()
+//@   requires at-start-char: len(pattern) >= 1 && isStartChar(pattern[0])
+//@   modifies parser.wildCardCount, parser.plusCount, heap(E_string), heap(E_p_fiber_Constraint)
+//@   ensures consumed: 1 <= result0 && result0 <= len(pattern)
+//@   ensures parameter-segment: result1 != nil && result1.IsParam && result1.Length == 0 && result1.Const == "" && !result1.IsLast &&
+//@ ..     !result1.HasOptionalSlash && result1.ComparePart == "" && result1.PartCount == 0
+//@   ensures new-object: !old(allocated(result1))
+//@   ensures greedy-iff-star-or-plus: result1.IsGreedy <==> (pattern[0] == '*' || pattern[0] == '+')
+//@   ensures optional-iff-star-or-question-mark: result1.IsOptional <==> (pattern[0] == '*' || pattern[result0-1] == '?')
+//@   ensures greedy-is-one-byte: pattern[0] == '*' || pattern[0] == '+' ==> result0 == 1
+//@   ensures name-has-no-end-char: pattern[0] == ':' && !hasBrackets(pattern) ==> forall(k, 1, result0 - 1, !endAt(pattern, k)) &&
+//@ ..     (result0 > 1 && endAt(pattern, result0 - 1) ==> pattern[result0-1] == '?')
+//@   ensures stops-at-end-char: pattern[0] == ':' && !hasBrackets(pattern) && result0 < len(pattern) ==> pattern[result0-1] == '?' || endAt(pattern, result0)
+//@   ensures star-numbered: pattern[0] == '*' ==> parser.wildCardCount == old(parser.wildCardCount) + 1 && parser.plusCount == old(parser.plusCount) &&
+//@ ..     result1.ParamName == "*" + fmtInt(parser.wildCardCount)
+//@   ensures plus-numbered: pattern[0] == '+' ==> parser.plusCount == old(parser.plusCount) + 1 && parser.wildCardCount == old(parser.wildCardCount) &&
+//@ ..     result1.ParamName == "+" + fmtInt(parser.plusCount)
+//@   ensures named: pattern[0] == ':' ==> parser.plusCount == old(parser.plusCount) && parser.wildCardCount == old(parser.wildCardCount) &&
+//@ ..     (!hasBrackets(pattern) ==> result1.ParamName == unescaped(pattern[1:result0 - ite(pattern[result0-1] == '?', 1, 0)]))
+
+// ---------------------------------------------------------------------------------------------
+// Meta information for the search of a parameter's end
+// ---------------------------------------------------------------------------------------------
+
+// the literal c as it is searched for: without its trailing slashes (a literal of one byte is kept)
+//@ macro searchPart(c, x) = trimmedOrSame(c, x)
+// parameter k is directly followed by another non-greedy parameter: both are one byte long
+//@ macro oneByteParam(segs, k) = (k + 1 < len(segs) && !segs[k].IsGreedy && segs[k+1].IsParam && !segs[k+1].IsGreedy)
+// literal k ends in a slash that may be missing from the request path: it is the last segment or an optional parameter follows
+//@ macro slashOptional(segs, k) = (segs[k].Const[len(segs[k].Const)-1] == '/' && (segs[k].IsLast || (k + 1 < len(segs) && segs[k+1].IsOptional)))
+
+//@ func addParameterMetaInfo
+//@   requires segments-given: forall(k, 0, len(segs), segs[k] != nil && (!segs[k].IsParam ==> len(segs[k].Const) >= 1))
+//@   requires segments-distinct: forallI(a, forallI(b, 0 <= a && a < b && b < len(segs) ==> segs[a] != segs[b]))
+//@   modifies routeSegment.ComparePart, routeSegment.Length, routeSegment.PartCount, routeSegment.HasOptionalSlash
+//@   loop 1
+//@     invariant index: -1 <= i && i < len(segs)
+//@     invariant carried-literal: (i + 1 < len(segs) && !segs[i+1].IsParam ==> searchPart(segs[i+1].Const, comparePart)) && (i == len(segs) - 1 ==> comparePart == "")
+//@     invariant carried-literal-has-no-escape: i + 1 < len(segs) && !segs[i+1].IsParam && noEscape(segs[i+1].Const) ==> noEscape(comparePart)
+//@     invariant compare-part-is-next-literal: forall(k, i + 1, len(segs) - 1, segs[k].IsParam && !segs[k+1].IsParam && noEscape(segs[k+1].Const) ==> searchPart(segs[k+1].Const, segs[k].ComparePart))
+//@     invariant last-parameter-compares-nothing: i < len(segs) - 1 && segs[len(segs)-1].IsParam ==> segs[len(segs)-1].ComparePart == ""
+//@     decreases i + 1
+//@   loop 2
+//@     invariant index: 0 <= i && i <= len(segs)
+//@     invariant literal-length-kept: forall(k, 0, len(segs), !segs[k].IsParam ==> segs[k].Length == old(segs[k].Length))
+//@     invariant parameter-length: forall(k, 0, len(segs), segs[k].IsParam ==> segs[k].Length == ite(k < i && oneByteParam(segs, k), 1, old(segs[k].Length)))
+//@     invariant optional-slash: forall(k, 0, len(segs), segs[k].HasOptionalSlash <==> (old(segs[k].HasOptionalSlash) || (k < i && !segs[k].IsParam && slashOptional(segs, k))))
+//@     invariant part-count: forall(k, 0, len(segs), segs[k].PartCount >= old(segs[k].PartCount) && (k >= i ==> segs[k].PartCount == old(segs[k].PartCount))) &&
+//@ ..      forall(k, 0, i, segs[k].IsParam && segs[k].ComparePart != "" && k + 2 == len(segs) && !segs[k+1].IsParam ==> segs[k].PartCount == old(segs[k].PartCount) + strCount(segs[k+1].Const, segs[k].ComparePart))
+//@     decreases len(segs) - i
+//@   loop 3
+//@     invariant index: i + 1 <= j && j <= len(segs) && i < len(segs) && segs[i].IsParam && segs[i].ComparePart != ""
+//@     invariant part-count-others: forall(k, 0, len(segs), k != i ==> segs[k].PartCount >= old(segs[k].PartCount) && (k > i ==> segs[k].PartCount == old(segs[k].PartCount))) &&
+//@ ..      forall(k, 0, i, segs[k].IsParam && segs[k].ComparePart != "" && k + 2 == len(segs) && !segs[k+1].IsParam ==> segs[k].PartCount == old(segs[k].PartCount) + strCount(segs[k+1].Const, segs[k].ComparePart))
+//@     invariant part-count-so-far: segs[i].PartCount >= old(segs[i].PartCount) &&
+//@ ..      (j <= i + 2 ==> segs[i].PartCount == old(segs[i].PartCount) + ite(j == i + 2 && !segs[i+1].IsParam, strCount(segs[i+1].Const, segs[i].ComparePart), 0))
+//@     decreases len(segs) - j
+//@   ensures same-slice: result == segs
+//@   ensures literal-length-kept: forall(k, 0, len(segs), !segs[k].IsParam ==> segs[k].Length == old(segs[k].Length))
+//@   ensures parameter-length: forall(k, 0, len(segs), segs[k].IsParam ==> segs[k].Length == ite(oneByteParam(segs, k), 1, old(segs[k].Length)))
+//@   ensures optional-slash: forall(k, 0, len(segs), segs[k].HasOptionalSlash <==> (old(segs[k].HasOptionalSlash) || (!segs[k].IsParam && slashOptional(segs, k))))
+//@   ensures compare-part-is-next-literal: forall(k, 0, len(segs) - 1, segs[k].IsParam && !segs[k+1].IsParam && noEscape(segs[k+1].Const) ==> searchPart(segs[k+1].Const, segs[k].ComparePart))
+//@   ensures last-parameter-compares-nothing: len(segs) > 0 && segs[len(segs)-1].IsParam ==> segs[len(segs)-1].ComparePart == ""
+//@   ensures part-count-of-final-literal: forall(k, 0, len(segs), segs[k].IsParam && segs[k].ComparePart != "" && k + 2 == len(segs) && !segs[k+1].IsParam ==>
+//@ ..      segs[k].PartCount == old(segs[k].PartCount) + strCount(segs[k+1].Const, segs[k].ComparePart))
+
+// ---------------------------------------------------------------------------------------------
+// parseRoute establishes the well-formedness that the matcher (getMatch, findParamLen, Route.match) assumes
+// ---------------------------------------------------------------------------------------------
+
+// pcount (C02 block) is the number of parameter segments before a position: this is its defining recurrence.
+//@ macro pcountDef(p) = (pcount(p, 0) == 0 && forall(sd, 0, len(p.segs), pcount(p, sd + 1) == pcount(p, sd) + ite(p.segs[sd].IsParam, 1, 0)))
+//@ fn paramCount(pattern string) int
+//@ macro pcountMonotone(p) = forallI(ma, forallI(mb, 0 <= ma && ma <= mb && mb <= len(p.segs) ==> pcount(p, ma) <= pcount(p, mb)))
+// a segment as the two analyse functions leave it
+//@ macro rawSegment(g) = (g != nil && allocated(g) && !g.IsLast && !g.HasOptionalSlash && g.ComparePart == "" && g.PartCount == 0 &&
+//@ ..   (!g.IsParam ==> g.Length == len(g.Const) && g.Length >= 1 && noEscape(g.Const)) && (g.IsParam ==> g.Length == 0))
+
+// A pattern whose last byte is an escape character has a literal part without any literal byte ("/:a\"): the
+// segment would be empty and addParameterMetaInfo indexes Const[-1].
+//@ func (*routeParser).parseRoute
+//@   assumes special-character-tables: startCharsTable() && endCharsTable() && delimiterCharsTable()
+//@   requires empty-parser: len(parser.segs) == 0 && len(parser.params) == 0
+//@   modifies parser.segs, parser.params, routeParser.wildCardCount, routeParser.plusCount, heap(E_string), heap(E_p_fiber_Constraint), heap(E_p_fiber_routeSegment),
+//@ ..   routeSegment.ComparePart, routeSegment.Length, routeSegment.PartCount, routeSegment.HasOptionalSlash, routeSegment.IsLast
+//@   loop 1
+//@     invariant rest-of-pattern: len(pattern) <= len(old(pattern)) && (len(parser.segs) == 0 ==> pattern == old(pattern)) && (len(pattern) < len(old(pattern)) <==> len(parser.segs) > 0)
+//@     invariant no-dangling-escape: old(len(pattern) == 0 || pattern[len(pattern)-1] != '\\') ==> len(pattern) == 0 || pattern[len(pattern)-1] != '\\'
+//@     invariant raw-segments: forall(k, 0, len(parser.segs), rawSegment(parser.segs[k]))
+//@     invariant segments-distinct: forallI(a, forallI(b, 0 <= a && a < b && b < len(parser.segs) ==> parser.segs[a] != parser.segs[b]))
+//@     invariant one-name-per-parameter: len(parser.params) <= len(parser.segs) && (pcountDef(parser) ==> pcount(parser, len(parser.segs)) == len(parser.params) && pcountMonotone(parser))
+//@     invariant leading-slash-literal: len(parser.segs) > 0 && len(old(pattern)) > 0 && old(pattern)[0] == '/' ==> !parser.segs[0].IsParam && parser.segs[0].Const[0] == '/'
+//@     decreases len(pattern)
+//@   ensures segments-well-formed: forall(k, 0, len(parser.segs), parser.segs[k] != nil && (!parser.segs[k].IsParam ==> parser.segs[k].Length == len(parser.segs[k].Const) && parser.segs[k].Length >= 1) &&
+//@ ..     (parser.segs[k].IsParam ==> parser.segs[k].Length == ite(oneByteParam(parser.segs, k), 1, 0)))
+// Definitions (assumed at call sites, not proof obligations): pcount counts the parameter segments of THIS parse, and
+// paramCount(pattern) names how many parameters the pattern has (the parse is a function of the pattern text).
+//@   trusted ensures pcountDef(parser) && len(parser.params) == paramCount(pattern)
+//@   ensures one-name-per-parameter: pcountDef(parser) ==> pcount(parser, len(parser.segs)) == len(parser.params) && pcountMonotone(parser)
+//@   ensures establishes-matcher-precondition: pcountDef(parser) && len(parser.params) <= maxParams ==> wfParser(parser)
+//@   ensures last-flag-on-last-segment-only: forall(k, 0, len(parser.segs), parser.segs[k].IsLast <==> k == len(parser.segs) - 1)
+//@   ensures optional-slash-iff-slash-may-be-missing: forall(k, 0, len(parser.segs), parser.segs[k].HasOptionalSlash <==> (!parser.segs[k].IsParam && slashOptional(parser.segs, k)))
+//@   ensures compare-part-is-next-literal: forall(k, 0, len(parser.segs) - 1, parser.segs[k].IsParam && !parser.segs[k+1].IsParam ==> searchPart(parser.segs[k+1].Const, parser.segs[k].ComparePart))
+//@   ensures last-parameter-compares-nothing: len(parser.segs) > 0 && parser.segs[len(parser.segs)-1].IsParam ==> parser.segs[len(parser.segs)-1].ComparePart == ""
+//@   ensures leading-slash-literal: len(pattern) > 0 && pattern[0] == '/' ==> len(parser.segs) > 0 && !parser.segs[0].IsParam && parser.segs[0].Const[0] == '/'
+//@   ensures empty-pattern-no-segments: len(pattern) == 0 ==> len(parser.segs) == 0
+
+// The parser value that registration stores in the route. segsOf/paramsOf name the outcome of parsing a pattern
+// (the parse is a deterministic function of the pattern text).
+//@ fn segsOf(pattern string, ep int) slice
+//@ fn paramsOf(pattern string, ep int) slice
+//@ func parseRoute
+//@   defines result.segs == segsOf(pattern, epoch) && result.params == paramsOf(pattern, epoch)
+//@   assumes special-character-tables: startCharsTable() && endCharsTable() && delimiterCharsTable()
+//@   modifies routeParser.wildCardCount, routeParser.plusCount, heap(E_string), heap(E_p_fiber_Constraint), heap(E_p_fiber_routeSegment),
+//@ ..   routeSegment.ComparePart, routeSegment.Length, routeSegment.PartCount, routeSegment.HasOptionalSlash, routeSegment.IsLast
+//@   ensures segments-well-formed: forall(k, 0, len(result.segs), result.segs[k] != nil && (!result.segs[k].IsParam ==> result.segs[k].Length == len(result.segs[k].Const) && result.segs[k].Length >= 1) &&
+//@ ..     (result.segs[k].IsParam ==> result.segs[k].Length == ite(oneByteParam(result.segs, k), 1, 0)))
+//@   ensures last-flag-on-last-segment-only: forall(k, 0, len(result.segs), result.segs[k].IsLast <==> k == len(result.segs) - 1)
+//@   ensures optional-slash-iff-slash-may-be-missing: forall(k, 0, len(result.segs), result.segs[k].HasOptionalSlash <==> (!result.segs[k].IsParam && slashOptional(result.segs, k)))
+//@   ensures compare-part-is-next-literal: forall(k, 0, len(result.segs) - 1, result.segs[k].IsParam && !result.segs[k+1].IsParam ==> searchPart(result.segs[k+1].Const, result.segs[k].ComparePart))
+//@   ensures last-parameter-compares-nothing: len(result.segs) > 0 && result.segs[len(result.segs)-1].IsParam ==> result.segs[len(result.segs)-1].ComparePart == ""
+//@   ensures leading-slash-literal: len(pattern) > 0 && pattern[0] == '/' ==> len(result.segs) > 0 && !result.segs[0].IsParam && result.segs[0].Const[0] == '/'
+
+// ---------------------------------------------------------------------------------------------
+// Registration and RoutePatternMatch normalise the pattern the same way
+// ---------------------------------------------------------------------------------------------
+
+// a pattern always starts with a slash; the empty pattern is "/"
+// (declared with its defining axioms instead of a body: a body with ite cannot occur in quantifier patterns; the axioms
+// only fire where rooted(...) occurs, so they do not disturb the queries of other contracts)
+//@ fn rooted(s string) string
+//@ smt (assert (forall ((s Str)) (! (and (=> (= (len s) 0) (and (= (len (rooted s)) 1) (= (at (rooted s) 0) 47))) (=> (and (> (len s) 0) (= (at s 0) 47)) (= (rooted s) s)) (=> (and (> (len s) 0) (not (= (at s 0) 47))) (and (= (len (rooted s)) (+ (len s) 1)) (= (at (rooted s) 0) 47) (= (sub (rooted s) 1 (+ (len s) 1)) s)))) :pattern ((rooted s)))))
+// pretty is the normal form of the rooted pattern r: lower-cased unless CaseSensitive, trailing slashes removed unless
+// StrictRouting (a pattern of one byte is kept) - the request path is normalised the same way (pathsFromConfig, C05 block)
+//@ macro trimmedUnlessStrict(strict, f, pretty) = ite(!strict && len(f) > 1, trimmedOf(f, pretty), pretty == f)
+//@ macro normalForm(caseSensitive, strict, r, pretty) = (caseSensitive ==> trimmedUnlessStrict(strict, r, pretty)) && (!caseSensitive ==> trimmedUnlessStrict(strict, lower(r), pretty))
+
+//@ macro stackPerMethod(app) = len(app.stack) == len(app.config.RequestMethods)
+//@ macro stackEntriesGiven(app) = forall(sm, 0, len(app.stack), forall(si, 0, len(app.stack[sm]), app.stack[sm][si] != nil))
+//@ macro methodTableIndexed(app) = forall(km, 0, len(app.config.RequestMethods), 0 <= methodIdx(app, app.config.RequestMethods[km], epoch) && methodIdx(app, app.config.RequestMethods[km], epoch) < len(app.stack))
+// The route handed to addRoute - for every registration: literal or parameterised pattern, Use or endpoint - carries
+// the parser of the PRETTIFIED pattern (the normal form of the rooted pattern), the unescaped prettified pattern as
+// literal path, the parameter names of the raw pattern, and kind flags computed from them.
+// (The object invariants of App that addRoute needs - one stack per method, no nil entries, the method is in the
+// method table - could not be carried through register's loops (parseRoute has to list heap(E_string), an engine
+// limitation); addRoute assumes them itself, see its contract. The atcall clauses do not depend on them.)
+//@ func (*App).register
+//@   props C03 C01
+//@   panics
+//@   assumes special-character-tables: startCharsTable() && endCharsTable() && delimiterCharsTable()
+//@   assumes lock-free: !held(app.mutex)
+//@   loop 2
+//@     invariant app-kept: !held(app.mutex) && app.config.CaseSensitive == old(app.config.CaseSensitive) && app.config.StrictRouting == old(app.config.StrictRouting)
+//@   loop 3
+//@     invariant app-kept: !held(app.mutex) && app.config.CaseSensitive == old(app.config.CaseSensitive) && app.config.StrictRouting == old(app.config.StrictRouting)
+//@     invariant use-route-kept: route.use && route.Method == "USE"
+//@   atcall (*App).addRoute: rooted-pattern: pathRaw == rooted(old(pathRaw)) && arg2.Path == pathRaw
+//@   atcall (*App).addRoute: pretty-is-normal-form: normalForm(app.config.CaseSensitive, app.config.StrictRouting, pathRaw, pathPretty)
+//@   atcall (*App).addRoute: parser-of-pretty-path: arg2.routeParser.segs == segsOf(pathPretty, epoch)
+//@   atcall (*App).addRoute: literal-path-unescaped-pretty: arg2.path == unescaped(pathPretty)
+//@   atcall (*App).addRoute: names-of-raw-path: arg2.Params == paramsOf(pathRaw, epoch)
+//@   atcall (*App).addRoute: star-flag: arg2.star == (arg2.path == "/*")
+//@   atcall (*App).addRoute: root-flag: arg2.root == (arg2.path == "/")
+//@   atcall (*App).addRoute: use-flag: arg2.use == (arg2.Method == "USE")
+
+//@ func (*routeParser).reset
+//@   modifies parser.segs, parser.params, parser.wildCardCount, parser.plusCount
+//@   ensures emptied: len(parser.segs) == 0 && len(parser.params) == 0
+
+// The []byte twin of RemoveEscapeChar (in place).
+//@ func RemoveEscapeCharBytes
+//@   modifies elems(word)
+//@   defines str(result) == unescaped(old(str(word)))
+//@   loop 1
+//@     invariant compacted: 0 <= dst && dst <= src && src <= len(word)
+//@     decreases len(word) - src
+//@   ensures no-longer: len(result) <= len(word)
+
+// RoutePatternMatch(path, pattern, cfg): "would an application configured with cfg that holds only Get(pattern)
+// answer GET path?" - the pattern is normalised as registration normalises it, the path as the request context
+// normalises it (pathsFromConfig), and the decision is Route.match's for an endpoint route.
+// (engine: the copy `config = cfg[0]` is an opaque struct token whose fields cannot be read in clauses, and the fields
+// of the local are not linked to cfg[0]: the clauses below are stated without the configuration - "some routing
+// configuration" - and through which normalisation steps ran; the bounded stand-in compares per configuration)
+//@ macro anyNormalForm(r, pp) = (normalForm(true, true, r, pp) || normalForm(true, false, r, pp) || normalForm(false, true, r, pp) || normalForm(false, false, r, pp))
+//@ macro sameOrTrimmed(f, p) = (p == f || (len(f) > 1 && trimmedOf(f, p)))
+//@ macro rpmPath0(p) = ite(len(p) == 0, "/", p)
+//@ macro rpmDecoded(p) = ite(called(@fasthttp.AppendUnquotedArg), unquoted(rpmPath0(p)), rpmPath0(p))
+//@ func RoutePatternMatch
+//@   assumes special-character-tables: startCharsTable() && endCharsTable() && delimiterCharsTable()
+// a route pattern has at most maxParams parameters (the value array of the context has that many slots; more make
+// getMatch index out of range - observation recorded under C07, a precondition here)
+//@   requires at-most-maxParams-parameters: forallS(pp, anyNormalForm(rooted(pattern), pp) ==> paramCount(pp) <= maxParams)
+// the pattern handed to the parser is the rooted pattern, lower-cased iff the folding step ran, and then what
+// utils.TrimRight(., '/') makes of it iff the trimming step ran (assumed contract of TrimRight: the prefix without
+// trailing slashes): the normal form registration computes (normalForm) for the configuration that makes these steps run
+//@   atcall (*routeParser).parseRoute: parses-the-pretty-pattern: arg1 == str(patternPretty)
+//@   atcall (*routeParser).parseRoute: pattern-in-normal-form: sameOrTrimmed(ite(called(@utils.ToLowerBytes), lower(rooted(old(pattern))), rooted(old(pattern))), str(patternPretty))
+//@   atcall (*routeParser).parseRoute: folded-iff-path-folded: called(@utils.ToLowerBytes) <==> called(@utils.ToLower)
+//@   atcall @utils.TrimRight: only-slashes-cut: cutset == '/'
+//@   atcall (*routeParser).getMatch: one-path-view: arg1 == arg2 && !arg4
+// the path handed to the matcher is the request path normalised as the request context normalises it: percent-decoded
+// iff the decoding step ran, then lower-cased iff the folding step ran, then without trailing slashes or unchanged
+//@   atcall (*routeParser).getMatch: path-normalised-like-a-request-path: sameOrTrimmed(ite(called(@utils.ToLower), lower(rpmDecoded(old(path))), rpmDecoded(old(path))), arg1)
+// Route.match returns the parser's answer for a parameterised route; it does not fall back to comparing the text
+//@   ensures parser-no-is-final: called((*routeParser).getMatch) && !last((*routeParser).getMatch) ==> !result
